@@ -89,6 +89,11 @@ B("C05", "nth-std-product", "statistics.py", "return (mean + n*std)", "return (m
 B("C05", "peak-mask-for-curves", "hvsr_traditional.py", "                                    self.amplitude[self.valid_window_boolean_mask],\n                                    std_kwargs=dict(axis=0))",
   "                                    self.amplitude[self.valid_peak_boolean_mask],\n                                    std_kwargs=dict(axis=0))")
 B("C05", "accessor-writes-mask", "hvsr_traditional.py", '        return _nanstd_weighted(distribution, self.peak_amplitudes)', '        self.valid_peak_boolean_mask[np.isnan(self._main_peak_amp)] = False\n        return _nanstd_weighted(distribution, self.peak_amplitudes)')
+B("C05", "raw-alias-compare", "statistics.py", '    if DISTRIBUTION_MAP.get(distribution.lower(), None) == "lognormal":\n        mean = np.log(mean)', '    if distribution == "lognormal":\n        mean = np.log(mean)',
+  "the defect repaired by 5bc5be7: 'log-normal' takes deviations about the linear mean")
+B("C05", "cov-raw-name", "hvsr_traditional.py", "        distribution = DISTRIBUTION_MAP[distribution]\n\n        frequencies = self.peak_frequencies", "        frequencies = self.peak_frequencies",
+  "cov_fn compares the raw spelling: 'log-normal' is refused / mis-handled")
+N("C05", "alias-resolved-local", "statistics.py", '    if DISTRIBUTION_MAP.get(distribution.lower(), None) == "lognormal":\n        mean = np.log(mean)', '    resolved = DISTRIBUTION_MAP.get(distribution.lower(), None)\n    if resolved == "lognormal":\n        mean = np.log(mean)')
 N("C05", "keyword-call", "hvsr_traditional.py", "return _nanmean_weighted(distribution, self.peak_frequencies)", "return _nanmean_weighted(distribution=distribution, values=self.peak_frequencies)")
 
 # ----------------------------------------------------------------------------- C06
